@@ -1,6 +1,6 @@
 use std::{fmt::Debug, time::Duration};
 
-use bytes::{BufMut, BytesMut};
+use bytes::{Buf, BufMut, Bytes, BytesMut};
 use if_chain::if_chain;
 use tokio::{
     io::{AsyncRead, AsyncReadExt, AsyncWrite, AsyncWriteExt},
@@ -31,6 +31,10 @@ pub struct Framed {
     codec: Codec,
     buffer: BytesMut,
     verify_version: bool,
+    // A keepalive reply which has not been fully written yet, and the packet which is handed
+    // to the caller once it has. This lives here, rather than in the future returned by `read`,
+    // so that dropping that future (i.e. in a `select!`) loses neither.
+    pending_pong: Option<(Bytes, Packet)>,
 }
 
 impl Framed {
@@ -43,7 +47,19 @@ impl Framed {
             codec,
             buffer,
             verify_version: false,
+            pending_pong: None,
         }
+    }
+
+    /// Finish writing a keepalive reply that an earlier, cancelled, `read` started.
+    async fn flush_pending_pong(&mut self) -> Result<()> {
+        if let Some((buf, _)) = self.pending_pong.as_mut() {
+            if buf.has_remaining() {
+                // write_all_buf advances `buf` by whatever was written, even if we're dropped
+                self.inner.write_all_buf(buf).await?;
+            }
+        }
+        Ok(())
     }
 
     /// Modifies whether or not to verify the Insim version
@@ -86,6 +102,13 @@ impl Framed {
     /// Asynchronously wait for a packet from the inner network.
     pub async fn read(&mut self) -> Result<Packet> {
         loop {
+            if self.pending_pong.is_some() {
+                self.flush_pending_pong().await?;
+                if let Some((_, packet)) = self.pending_pong.take() {
+                    return Ok(packet);
+                }
+            }
+
             if_chain! {
                 if !self.buffer.is_empty();
                 if let Some(packet) = self.codec.decode(&mut self.buffer)?;
@@ -98,7 +121,11 @@ impl Framed {
                     // keepalive
                     if let Some(pong) = packet.maybe_pong() {
                         tracing::debug!("Ping? Pong!");
-                        self.write(pong).await?;
+                        // the packet has already left the buffer: park it with its reply so
+                        // that cancellation whilst writing cannot lose it
+                        let buf = self.codec.encode(&pong)?;
+                        self.pending_pong = Some((buf, packet));
+                        continue;
                     }
 
                     return Ok(packet);
@@ -133,6 +160,8 @@ impl Framed {
     /// Asynchronously write a packet to the inner network.
     pub async fn write<P: Into<Packet>>(&mut self, packet: P) -> Result<()> {
         let mut buf = self.codec.encode(&packet.into())?;
+        // never interleave with a half written keepalive reply
+        self.flush_pending_pong().await?;
         if !buf.is_empty() {
             self.inner.write_all_buf(&mut buf).await?;
         }
